@@ -75,6 +75,8 @@ def _sut():
 
 def _hex(x, n, case="upper"):
     s = "%0*X" % (n // 4, x)
+    if case == "mixed":   # some letters upper, some lower (deterministic: by position and value)
+        return "".join(c.lower() if (i * 7 + ord(c)) % 3 == 0 else c for i, c in enumerate(s))
     return s.lower() if case == "lower" else s
 
 
@@ -315,7 +317,7 @@ def cases(ctx):
     for k in range(nrand):
         n = rng.choice((56, 112))
         yield "exact", {"n": n, "x": "%X" % rng.fill(n), "legacy": (k % 10 == 0),
-                        "case": "lower" if k % 3 == 0 else "upper", "sibling": k % 4 == 1}
+                        "case": ("lower", "upper", "upper", "mixed", "upper", "lower")[k % 6], "sibling": k % 4 == 1}
     # frames whose parity-field text also occurs inside the payload (a text-level operation on the tail must not touch it)
     for k in range(ctx.share(6000 if quick else 60000)):
         n = rng.choice((56, 112))
